@@ -72,6 +72,10 @@ const (
 	ArgInt  = 2 // /^TAG (-?\d+)$/
 	ArgDim2 = 3 // /^TAG (\S*) (\S*)$/         two label values
 	ArgDim3 = 4 // /^TAG (\S*) (\S*) (\S+)$/   two label values and a payload
+	// outer patterns of an "sm" statement: the captured operand can be EMPTY
+	ArgSmW    = 5 // /^TAG u=(?P<uI>\w*);/        empty when nothing follows "u="
+	ArgSmOpt  = 6 // /^TAG(?: u=(?P<uI>\w+))?;$/  empty when the group does not participate
+	ArgSmLine = 7 // /^(?P<uI>\w*)$/             the whole line; matches the EMPTY line
 )
 
 // Action kinds:
@@ -109,13 +113,59 @@ type Action struct {
 //	"uncond" Acts at the top level, outside any block
 //	"sc"     /^(?P<vI>.*)$/ { $vI == "Lit" || PI { Acts } }   with  const PI /^Tag (?P<xI>\S+)$/
 //	         (in Acts, "strp" reads $xI; on the line Lit the pattern is not evaluated)
+//	"sm"     /OUTER(Arg)/ { Pre;  $uI =~ /Lit/ { Acts } }     (Neg: !~)   the Smatch instruction on a
+//	         captured operand; Lit is the inner regexp, its group (if any) is (?P<dI>...) and
+//	         "strp" / "conv" in Acts read $dI
 type Stmt struct {
 	Kind string   `json:"kind,omitempty"`
 	Tag  string   `json:"tag"`
 	Arg  int      `json:"arg"`
 	Lit  string   `json:"lit,omitempty"`
+	Neg  bool     `json:"neg,omitempty"`
+	Pre  []Action `json:"pre,omitempty"`
 	Acts []Action `json:"acts"`
 	Else []Action `json:"else,omitempty"`
+}
+
+func (s Stmt) all() []Action {
+	return append(append(append([]Action{}, s.Pre...), s.Acts...), s.Else...)
+}
+
+// InnerRegexps: regexps for the right-hand side of =~ / !~.  Some match the
+// empty string and some do not; D marks those with one group, written
+// (?P<dI>...) in the program, that the body may read.
+var InnerRegexps = []struct {
+	Re string // with %s where the group name goes
+	D  bool
+}{
+	{"^(guest)?$", false}, {"^$", false}, {"^a*$", false}, {"x", false}, {"^\\s*$", false}, {"^-?$", false},
+	{"^(%s\\d*)$", true}, {"^(%s\\d+)$", true}, {"^(%s[a-z]*)$", true}, {"(%s\\d\\d\\d\\d)?", true},
+}
+
+// Inner is the inner regexp of an "sm" statement: named for the program, plain for the harness.
+func (s Stmt) Inner(i int, named bool) string {
+	if !strings.Contains(s.Lit, "%s") {
+		return s.Lit
+	}
+	if named {
+		return fmt.Sprintf(s.Lit, fmt.Sprintf("?P<d%d>", i))
+	}
+	return fmt.Sprintf(s.Lit, "")
+}
+
+// outer is the outer pattern of an "sm" statement; name is "" for the harness.
+func (s Stmt) outer(name string) string {
+	g := "("
+	if name != "" {
+		g = "(?P<" + name + ">"
+	}
+	switch s.Arg {
+	case ArgSmW:
+		return "^" + s.Tag + " u=" + g + "\\w*);"
+	case ArgSmOpt:
+		return "^" + s.Tag + "(?: u=" + g + "\\w+))?;$"
+	}
+	return "^" + g + "\\w*)$"
 }
 
 type Prog struct {
@@ -128,6 +178,9 @@ type Prog struct {
 func (s Stmt) Pattern() string {
 	if s.Kind == "sc" {
 		return "^" + s.Tag + " (\\S+)$" // the const pattern, groups unnamed for the harness
+	}
+	if s.Kind == "sm" {
+		return s.outer("")
 	}
 	switch s.Arg {
 	case ArgStr:
@@ -164,7 +217,7 @@ func (p Prog) Metrics() []string {
 	seen := map[string]bool{}
 	var gs, cs, ds, hs []string
 	for _, s := range p.Stmts {
-		for _, a := range append(append([]Action{}, s.Acts...), s.Else...) {
+		for _, a := range s.all() {
 			if a.M == "" || seen[a.M] {
 				continue
 			}
@@ -199,7 +252,7 @@ func (p Prog) Source() string {
 	var b strings.Builder
 	seenC := map[string]bool{}
 	for _, s := range p.Stmts {
-		for _, a := range append(append([]Action{}, s.Acts...), s.Else...) {
+		for _, a := range s.all() {
 			if a.K == "inc" {
 				seenC[a.M] = true
 			}
@@ -230,6 +283,8 @@ func (p Prog) Source() string {
 			case "strp":
 				if s.Kind == "sc" {
 					fmt.Fprintf(&b, "%sstrptime($x%d, %s)\n", ind, i, mtailStr(a.Layout))
+				} else if s.Kind == "sm" {
+					fmt.Fprintf(&b, "%sstrptime($d%d, %s)\n", ind, i, mtailStr(a.Layout))
 				} else {
 					fmt.Fprintf(&b, "%sstrptime($1, %s)\n", ind, mtailStr(a.Layout))
 				}
@@ -248,7 +303,11 @@ func (p Prog) Source() string {
 			case "inc":
 				fmt.Fprintf(&b, "%s%s++\n", ind, a.M)
 			case "conv":
-				fmt.Fprintf(&b, "%s%s = int($1)\n", ind, a.M)
+				if s.Kind == "sm" {
+					fmt.Fprintf(&b, "%s%s = int($d%d)\n", ind, a.M, i)
+				} else {
+					fmt.Fprintf(&b, "%s%s = int($1)\n", ind, a.M)
+				}
 			case "stop":
 				b.WriteString(ind + "stop\n")
 			case "hinc":
@@ -272,6 +331,16 @@ func (p Prog) Source() string {
 			acts("", i, s, s.Acts)
 		case "sc":
 			fmt.Fprintf(&b, "/^(?P<v%d>.*)$/ {\n  $v%d == %s || P%d {\n", i, i, mtailStr(s.Lit), i)
+			acts("    ", i, s, s.Acts)
+			b.WriteString("  }\n}\n")
+		case "sm":
+			op := "=~"
+			if s.Neg {
+				op = "!~"
+			}
+			fmt.Fprintf(&b, "/%s/ {\n", s.outer(fmt.Sprintf("u%d", i)))
+			acts("  ", i, s, s.Pre)
+			fmt.Fprintf(&b, "  $u%d %s /%s/ {\n", i, op, s.Inner(i, true))
 			acts("    ", i, s, s.Acts)
 			b.WriteString("  }\n}\n")
 		default:
@@ -307,6 +376,8 @@ type Event struct {
 	Labels []string `json:"labels,omitempty"`
 	// fail: the runtime error is a panic inside the VM that execute recovers
 	Panic bool `json:"panic,omitempty"`
+	// match: the Smatch instruction (=~ / !~) on the operand Value
+	Sm bool `json:"sm,omitempty"`
 }
 
 // Events is the sequence of time-relevant events the program performs on the
@@ -405,6 +476,22 @@ func (p Prog) Events(line string) []Event {
 			match(2*i+1, m)
 			if m != nil {
 				emit(s, s.Acts, 2*i+1, m, true)
+			}
+		case "sm":
+			m := regexp.MustCompile(s.Pattern()).FindStringSubmatch(line)
+			match(2*i, m)
+			if m == nil {
+				continue
+			}
+			emit(s, s.Pre, 2*i, m, true)
+			// push, capref (inlined: the outer pattern has matched on this line), smatch
+			operand := m[1]
+			res := regexp.MustCompile(s.Inner(i, false)).FindStringSubmatch(operand)
+			if p.Caps {
+				evs = append(evs, Event{K: "match", Re: 2*i + 1, Hit: res != nil, Groups: res, Sm: true, Value: operand})
+			}
+			if (res != nil) != s.Neg {
+				emit(s, s.Acts, 2*i+1, res, res != nil)
 			}
 		default:
 			m := regexp.MustCompile(s.Pattern()).FindStringSubmatch(line)
@@ -940,6 +1027,7 @@ type Weights struct {
 	TailUncond                                     int // percent: ... or in a bare top-level stop / failing strptime
 	HeadUncond                                     int // percent: the program starts with a top-level counter++
 	Dim                                            int // percent: the program also has dimensioned metrics (0: never, no random draw)
+	SM                                             int // percent: the program also has `$u =~ /re/ { ... }` / `!~` statements on a capture that can be empty (0: never, no random draw)
 	Panic                                          int // percent: the program also has `/^H$/ { ...; h0++ }`, an instruction that panics and is recovered (0: never, no random draw)
 }
 
@@ -1060,6 +1148,9 @@ func GenProg(r *vlib.Rand, w Weights) Prog {
 	}
 	if w.Dim > 0 && r.Chance(w.Dim) {
 		genDim(r, &p)
+	}
+	if w.SM > 0 && r.Chance(w.SM) {
+		genSM(r, &p)
 	}
 	if w.Panic > 0 && r.Chance(w.Panic) {
 		// ++ on a histogram: accepted by the checker, panics in the datum package,
@@ -1192,6 +1283,78 @@ func genDim(r *vlib.Rand, p *Prog) {
 	}
 }
 
+// genSM inserts one or two `=~` / `!~` statements whose operand is a capture
+// that can be empty, over regexps that do and do not match the empty string.
+func genSM(r *vlib.Rand, p *Prog) {
+	n := 1 + r.Intn(2)
+	for k := 0; k < n; k++ {
+		in := vlib.Pick(r, InnerRegexps)
+		s := Stmt{Kind: "sm", Tag: fmt.Sprintf("S%d", k), Arg: vlib.Pick(r, []int{ArgSmW, ArgSmW, ArgSmOpt, ArgSmLine}),
+			Lit: in.Re, Neg: r.Chance(30)}
+		if r.Chance(50) {
+			s.Pre = append(s.Pre, Action{K: "inc", M: vlib.Pick(r, counters)})
+		}
+		if r.Chance(15) {
+			s.Pre = append(s.Pre, Action{K: "settc", N: vlib.Pick(r, settConsts)})
+		}
+		s.Acts = append(s.Acts, Action{K: "inc", M: vlib.Pick(r, counters)})
+		if in.D && !s.Neg {
+			switch x := r.Intn(10); {
+			case x < 4:
+				s.Acts = append(s.Acts, Action{K: "conv", M: "n0"})
+			case x < 7:
+				s.Acts = append(s.Acts, Action{K: "strp", Layout: "2006"}, Action{K: "gts", M: vlib.Pick(r, gauges)})
+			}
+		}
+		if r.Chance(30) {
+			s.Acts = append(s.Acts, Action{K: "gts", M: vlib.Pick(r, gauges)})
+		}
+		at := r.Intn(len(p.Stmts) + 1)
+		p.Stmts = append(p.Stmts[:at], append([]Stmt{s}, p.Stmts[at:]...)...)
+	}
+}
+
+// HasSM: the program has a `=~` / `!~` statement.
+func (p Prog) HasSM() bool {
+	for _, s := range p.Stmts {
+		if s.Kind == "sm" {
+			return true
+		}
+	}
+	return false
+}
+
+// SmOperands: operands for `=~`: the empty one, and non-empty ones that match
+// and do not match the inner regexps.
+var SmOperands = []string{"", "", "bob", "guest", "42", "2020", "aaa", "x", "a"}
+
+// smLines: lines for the `=~` statements: empty and non-empty operands, the
+// empty one as often as all the others so that both orders come up.
+func smLines(r *vlib.Rand, p Prog) []string {
+	var pool []string
+	for _, s := range p.Stmts {
+		if s.Kind != "sm" {
+			continue
+		}
+		mk := func(op string) string {
+			switch s.Arg {
+			case ArgSmW:
+				return s.Tag + " u=" + op + ";"
+			case ArgSmOpt:
+				if op == "" {
+					return s.Tag + ";"
+				}
+				return s.Tag + " u=" + op + ";"
+			}
+			return op // the whole line: "" is the empty line
+		}
+		for k := 0; k < 3; k++ {
+			pool = append(pool, mk(""), mk(vlib.Pick(r, SmOperands[2:])))
+		}
+	}
+	return pool
+}
+
 // HasPanic: the program has a statement whose instruction panics in the VM.
 func (p Prog) HasPanic() bool {
 	for _, s := range p.Stmts {
@@ -1257,7 +1420,7 @@ func dimLines(r *vlib.Rand, p Prog) []string {
 func LinePool(r *vlib.Rand, p Prog) []string {
 	var pool []string
 	for _, s := range p.Stmts {
-		if s.Kind == "uncond" || s.Arg == ArgDim2 || s.Arg == ArgDim3 {
+		if s.Kind == "uncond" || s.Kind == "sm" || s.Arg == ArgDim2 || s.Arg == ArgDim3 {
 			continue
 		}
 		if s.Kind == "sc" {
@@ -1320,6 +1483,13 @@ func LinePool(r *vlib.Rand, p Prog) []string {
 		}
 	}
 	pool = append(pool, "Z nothing matches")
+	if p.HasSM() {
+		d := smLines(r, p)
+		for 2*len(d) < len(pool) {
+			d = append(d, d...)
+		}
+		pool = append(pool, d...)
+	}
 	if p.HasDim() {
 		// as many lines for the label statements as for all the others
 		d := dimLines(r, p)
